@@ -302,10 +302,14 @@ REGISTRY["C10"] = besthand_check
 
 # ------------------------------------------------------------------ C08 / C17 / C18
 SEAT_TIER = {
-    "quick": dict(mc=[(3, "{1,2,3,4}")], explore=[(3, 4, [])], anon=[(5, ["-emit", "next", "-sample", "4"])],
+    "quick": dict(mc=[(3, "{1,2,3,4}")], explore=[(3, 4, [])], anon=[(5, ["-emit", "next", "-sample", "4", "-latejoin", "3"]),
+                        (6, ["-emit", "next", "-frontier", "random", "-max-states", "70000"]),
+                        (8, ["-emit", "next", "-frontier", "random", "-max-states", "40000"])],
                   random_runs=400, steps=70, sim_num=200, conc_runs=150),
     "thorough": dict(mc=[(3, "{1,2,3,4}"), (4, "{1,2,3,4,5}"), (5, "{1,2,3,4,5,6}")], explore=[(3, 4, []), (4, 5, ["-emit", "changing"])],
-                     anon=[(5, ["-emit", "changing"]), (6, ["-emit", "next", "-sample", "6"])],
+                     anon=[(5, ["-emit", "changing", "-latejoin", "1"]), (6, ["-emit", "next", "-sample", "6", "-latejoin", "4"]),
+                           (7, ["-emit", "next", "-frontier", "random", "-max-states", "400000"]),
+                           (9, ["-emit", "next", "-frontier", "random", "-max-states", "300000"])],
                      random_runs=5000, steps=90, sim_num=300, conc_runs=3000),
 }
 SEAT_IGNORE = '{"C08.lateJoiner.seatVacatedSinceBlindsSet"}'     # known finding F8: reported from real traces, not from the model
